@@ -21,6 +21,7 @@ From CL Require Import Base.Sx Base.Res Base.Str Model.AddRemove Model.Channels
                        Proofs.ReparsePartial
                        Model.Entry Model.Parse Model.ParseFormats Proofs.C02Blocks
                        Proofs.MergeShape Proofs.PropsShape Proofs.MergeReparse15 Proofs.PropsView.
+From CL Require Proofs.C02BlocksDtd Proofs.DtdShape Proofs.DtdReparse.
 From Coq Require Import Lia.
 Import ListNotations.
 Local Open Scope nat_scope.
@@ -247,3 +248,57 @@ Proof.
   split; [vm_compute; reflexivity|]. split; [vm_compute; reflexivity|].
   split; [vm_compute; reflexivity|]. split; [vm_compute; discriminate|]. split; vm_compute; reflexivity.
 Qed.
+
+(* ---- the re-parse clause for DTD, from the block theorem of C02 (blocks_dtd) ---------------------
+   Versions are legal DTD block lists (Proofs/C02BlocksDtd.v) without parameter-entity blocks;
+   [DtdReparse.dversion_ok m bs]: legal blocks, no "License" in attached comments, distinct
+   keys, every entity / standalone comment directly followed by a whitespace entry, and every
+   whitespace entry of length >= m has two line breaks (m = the least length of the whitespace
+   after a standalone comment; excludes the listed finding merge-ws-fold-loses-blank-line).
+   Then the merged text re-parses (walk_dtd) without junk; its entities are, with name and
+   value, the keyed entries of the merged entry list, its standalone comments that list's
+   comment entries. *)
+Theorem C15_reparse_dtd : forall m name (bss : list (list C02BlocksDtd.block)) txt,
+  Forall (DtdReparse.dversion_ok m) bss ->
+  merge_channels name (map DtdShape.dcentries_of bss) = Ok txt ->
+  exists out es,
+    merge_entries (map DtdShape.dcentries_of bss) = Ok out /\ txt = concat (map c_text out) /\
+    walk_dtd txt = Ok es /\
+    map (fun e => let r := entity_record txt e in (fst (fst r), snd (fst r)))
+        (filter (is_kind KEntity) es) = krecs out /\
+    map (fun e => span_text txt (e_span e)) (filter (is_kind KComment) es) = ccoms out /\
+    filter (is_kind KJunk) es = [].
+Proof. exact DtdReparse.merge_reparse_dtd. Qed.
+
+(* newer  <!ENTITY a "1">\n<!ENTITY b "2">\n   older  <!ENTITY a "0">\n<!--c-->\n\n<!ENTITY z "3">\n *)
+Definition de (k v : list nat) : C02BlocksDtd.block :=
+  C02BlocksDtd.BEntity None (A [32]) (A k) (A [32]) 34%N (A v) [].
+Definition dnl : C02BlocksDtd.block := C02BlocksDtd.BBlank (A [10]).
+Definition d_new : list C02BlocksDtd.block := [de [97] [49]; dnl; de [98] [50]; dnl].
+Definition d_old : list C02BlocksDtd.block :=
+  [de [97] [48]; dnl; C02BlocksDtd.BComment (A [99]); C02BlocksDtd.BBlank (A [10; 10]); de [122] [51]; dnl].
+
+Example C15_example_reparse_dtd :
+  exists txt es, merge_channels (s [102;46;100;116;100]) (map DtdShape.dcentries_of [d_new; d_old]) = Ok txt /\
+    walk_dtd txt = Ok es /\
+    map (fun e => let r := entity_record txt e in (fst (fst r), snd (fst r)))
+        (filter (is_kind KEntity) es) = [(A [97], A [49]); (A [122], A [51]); (A [98], A [50])] /\
+    map (fun e => span_text txt (e_span e)) (filter (is_kind KComment) es) = [A [60;33;45;45;99;45;45;62]] /\
+    filter (is_kind KJunk) es = [].
+Proof.
+  eexists. eexists. split; [vm_compute; reflexivity|]. split; [vm_compute; reflexivity|].
+  split; [vm_compute; reflexivity|]. split; vm_compute; reflexivity.
+Qed.
+
+Ltac dwsok_one :=
+  unfold DtdReparse.dwsok;
+  first [ intros Hw; vm_compute in Hw; discriminate
+        | intros _ Hl; first [vm_compute; lia | exfalso; vm_compute in Hl; lia] ].
+Ltac dversion_ok_tac :=
+  split; [repeat constructor|]; split; [repeat constructor|]; split; [repeat constructor|];
+  split; [split; nodup_tac|]; split; [vm_compute; intuition (try discriminate; try lia)|];
+  unfold DtdShape.dcentries_of; cbn [DtdShape.dcents DtdShape.dflush app];
+  repeat (apply Forall_cons; [dwsok_one|]); apply Forall_nil.
+
+Example C15_example_dversion_ok : Forall (DtdReparse.dversion_ok 2) [d_new; d_old].
+Proof. constructor; [dversion_ok_tac|constructor; [dversion_ok_tac|constructor]]. Qed.
